@@ -44,7 +44,18 @@ pub fn take() -> String {
     TRACE.with(|t| t.borrow().clone())
 }
 
+thread_local! {
+    /// engine `exec`: mark the point of a panic in the trace (`@panic`), not only its message
+    static MARK_PANICS: std::cell::Cell<bool> = std::cell::Cell::new(false);
+}
+pub fn mark_panics(on: bool) {
+    MARK_PANICS.with(|m| m.set(on));
+}
+
 pub fn note_panic(msg: &str) {
+    if MARK_PANICS.with(|m| m.get()) {
+        ev("@panic");
+    }
     PANIC.with(|p| {
         let mut p = p.borrow_mut();
         if p.is_empty() {
